@@ -585,9 +585,13 @@ func grantDuringLogin(c *core.Case, srv *fixture.Server, ip string, opt []byte, 
 		return
 	}
 	srv.Quiesce(refclient.Watchdog)
+	// the login is held either right before it is entered into the registry, or right after (registered, its login
+	// reply not yet queued): an edit acknowledged at either point must be in force for the session
+	holdAt := core.Pick(c.R, []string{"conn.registering", "login.ok"})
+	c.Count("login_held_at_"+holdAt, 1)
 	held, release := make(chan struct{}, 4), make(chan struct{})
 	srv.OnEvent = func(name string, cid [2]byte, x uint32) {
-		if name == "conn.registering" {
+		if name == holdAt {
 			held <- struct{}{}
 			select {
 			case <-release:
